@@ -129,7 +129,7 @@ pub fn run(env: &Env) -> Report {
     let sets = settings16();
     let typeable: Vec<char> = TYPEABLE.chars().collect();
     // work units: (setting index, kind, part)
-    #[derive(Clone)] enum Kind { Short(usize, usize), AcKeys(usize, usize), Emoji(usize, usize), Guided(usize), Suffix(usize), AllSuffixes(usize, usize), JoinClasses(usize, usize), Long }
+    #[derive(Clone)] enum Kind { Short(usize, usize), AcKeys(usize, usize), Emoji(usize, usize), Guided(usize), Suffix(usize), AllSuffixes(usize, usize), JoinClasses(usize, usize), UserOver(usize), Long }
     let mut units: Vec<(usize, Kind)> = vec![];
     let short_sets: Vec<usize> = if env.quick() { vec![(seed as usize) % 16, (seed as usize * 7 + 5) % 16] } else { (0..16).collect() };
     for &si in &short_sets { for g in 0..8 { units.push((si, Kind::Short(g, 8))); } }
@@ -139,13 +139,22 @@ pub fn run(env: &Env) -> Report {
     // every one of the suffix keys of suffix.json at least once per run (C08 quantifies over all of them)
     for g in 0..8 { units.push(((seed as usize + g * 3) % 16, Kind::AllSuffixes(g, 8))); }
     for g in 0..8 { units.push(((seed as usize + g * 5 + 1) % 16, Kind::JoinClasses(g, 8))); }
+    // user auto-correct entries whose KEY is also a bundled key: the user's entry is the one that counts (settings with a user file)
+    for k in 0..(if env.quick() { 4 } else { 16 }) { let si = (0..16).map(|j| (seed as usize + k * 3 + j) % 16).find(|&j| sets[j].1).unwrap_or(8); units.push((si, Kind::UserOver(k))); }
     units.push((0, Kind::Long)); units.push((1, Kind::Long));
     let reps = par_map(units.len(), |ui| {
         let (si, kind) = &units[ui];
         let (opts, with_ac) = sets[*si];
         let mut rep = Report::new("c07");
         let xdg = env.fresh_xdg(&format!("c07-{}", ui));
-        let uac = if with_ac { user_ac_sample() } else { HashMap::new() };
+        let mut uac = if with_ac { user_ac_sample() } else { HashMap::new() };
+        if let Kind::UserOver(k) = kind {
+            // 2 fixed + 10 seeded bundled keys, each given a value that differs from the bundled one (another bundled value / a plain word)
+            let mut r2 = Rng::new(seed.wrapping_mul(2654435761) ^ (*k as u64) << 8);
+            let mut ks: Vec<String> = vec!["atm".into(), "academy".into()];
+            for _ in 0..10 { ks.push(r2.pick(&pools.ac_keys).clone()); }
+            for key in ks { let bundled = env.data.autocorrect.get(&key).cloned().unwrap_or_default(); let mut v = r2.pick(&pools.ac_vals).clone(); if v == bundled { v = "kolom".into(); } uac.insert(key, v); }
+        }
         if with_ac { std::fs::write(user_dir(&xdg).join("autocorrect.json"), serde_json::to_string(&uac).unwrap()).unwrap(); }
         let mut t = env.trace(&format!("c07.{}", ui));
         t.line(&format!("case c07-{}", ui));
@@ -220,6 +229,15 @@ pub fn run(env: &Env) -> Report {
                         let txt = format!("{}{}", base, sk);
                         if txt.chars().all(crate::code_ok) { run_text(&mut s, &mut t, &mut rep, &txt); rep.count("join-class-text"); }
                     }
+                }
+            }
+            Kind::UserOver(_) => {
+                let mut ks: Vec<&String> = uac.keys().collect(); ks.sort();
+                for key in ks {
+                    if !key.chars().all(crate::code_ok) || key.is_empty() { continue; }
+                    run_text(&mut s, &mut t, &mut rep, key); rep.count("user-entry-over-bundled-typed");
+                    for sk in ["e", "er", "ke", "gulo"] { let txt = format!("{}{}", key, sk); if txt.chars().count() < 24 { run_text(&mut s, &mut t, &mut rep, &txt); } }
+                    let txt = format!("({}).", key); run_text(&mut s, &mut t, &mut rep, &txt);
                 }
             }
             Kind::Long => {
